@@ -843,7 +843,7 @@ Proof.
   exists a. split; [reflexivity|]. intros nm Hn.
   pose proof (elab_inv d n He) as HI.
   unfold elab, elab_stmts in He. rewrite Ec in He. cbn [bind] in He. apply bind_ok in He as [s [H1 H2]].
-  pose proof (classify_top_ok d a Ec) as Ht.
+  pose proof (classify_top_ok d a (classify_ok _ _ Ec)) as Ht.
   pose proof (track_start a init_st s Ht eq_refl Hnd H1 nm) as Htr.
   pose proof (finish_isigs s n H2 nm) as Hf.
   pose proof (start_has a init_st s Ht eq_refl Hnd H1 nm Hn) as Hh.
